@@ -3,7 +3,7 @@
    bind every cache key: the shape of every call site of symbolic.py as long as no row leaves a cache key open (a Comparator
    over two variables, an AND whose right side binds all its variables).  Rows that leave a key open put the wildcard into the
    index - the region of known finding C05-wildcard-retrieval - and are outside this theorem. *)
-From EQL Require Import Base IndexedCache IndexedCache_Facts IndexedCache_Sound.
+From EQL Require Import Base Generated IndexedCache IndexedCache_Facts IndexedCache_Sound.
 
 Lemma NoDup_map_inj {A B} (f : A -> B) (l : list A) x y : NoDup (map f l) -> In x l -> In y l -> f x = f y -> x = y.
 Proof.
@@ -32,9 +32,14 @@ Section FullRows.
   (* the call site: covered -> replay what the index returns; otherwise evaluate, yield, and store every row *)
   Definition store_all (s : both) (rows : list entry) : both :=
     fold_left (fun s e => fst (step s (OIns (fst e) (snd e)))) rows s.
+  (* what is stored with a row is the row's OWN truth flag - provided the code sets the flag before it stores the row
+     (Generated.row_flag_is_current, re-read from Comparator / AND / ElseIf ._evaluate__ on every run); otherwise every row would
+     be stored with the flag of the row before it *)
+  Definition shifted (rows : list entry) : list entry := combine (map fst rows) (0 :: map snd rows).
   Definition cached_step (s : both) (L : assignment) : both * list entry :=
     let s1 := fst (step s (OChk L)) in
-    if fst (ic_check (impl s) L) then (s1, ic_retrieve (impl s1) L) else (store_all s1 (answers L), answers L).
+    if fst (ic_check (impl s) L) then (s1, ic_retrieve (impl s1) L)
+    else (store_all s1 (if row_flag_is_current then answers L else shifted (answers L)), answers L).
   Fixpoint cached_run (s : both) (Ls : list assignment) : list (list entry) :=
     match Ls with [] => [] | L :: Ls' => let r := cached_step s L in snd r :: cached_run (fst r) Ls' end.
 
@@ -223,6 +228,7 @@ Section FullRows.
     same (snd (cached_step s L)) (answers L) /\ Good (fst (cached_step s L)).
   Proof.
     intros G B. pose proof (good_chk s L G B) as G1. unfold cached_step.
+    assert (FC : row_flag_is_current = true) by reflexivity. rewrite FC.
     destruct (fst (ic_check (impl s) L)) eqn:Cov; cbn [fst snd].
     2:{ split; [intros x; reflexivity|]. apply good_store; [exact G1|]. intros e He. unfold answers in He. now apply filter_In in He as [He _]. }
     split; [|exact G1].
